@@ -30,6 +30,10 @@ def surface_rec(cfg, rng, name="wing", second=False):
     }
     if second:
         geo = {"twist_cp": [1.0, -1.0]}
+        if s["sym"] and s["side"] in ("L", "R"):
+            # the second symmetric surface is modelled by its OTHER half (a left-half wing with a right-half tail): orientation is a
+            # per-surface property of every component that loops over the surfaces
+            rec["side"] = "R" if s["side"] == "L" else "L"
     rec["geo"] = geo
     if rec["ny"] == 2:  # one element: a single control point (the framework's spline component needs >= as many evaluation points)
         rec.update(thickness_cp=[0.03], spar_cp=[0.006], skin_cp=[0.015])
